@@ -135,7 +135,8 @@ def _build(d):
             # KIND of the date arguments (formula mode): serial literal,
             # DATE(y,m,d) result, a cell holding the serial, a cell holding
             # =DATE(y,m,d); DATEDIF unit in lower case / from a cell
-            'ak': d.choice(['serial', 'serial', 'date', 'cell', 'datecell']),
+            'ak': d.choice(['serial', 'serial', 'date', 'cell', 'datecell',
+                            'isotext']),
             'lc': d.pick(3) == 0,
             # YEARFRAC with the later date first (the function is symmetric:
             # it exchanges its dates when start > end)
@@ -318,6 +319,19 @@ def _pair_case(case, res):
     def run(fn, *args):
         if fn == 'DATEDIF' and case.get('lc'):
             args = args[:2] + (args[2].lower(),)
+        if ak == 'isotext':
+            # the dates as ISO 8601 TEXT ("2020-03-05"), which the library
+            # reads as dates; unambiguous for every parser
+            args = tuple(RD.to_date(x).isoformat() if i < 2 and not
+                         isinstance(x, str) and x >= 61 else x
+                         for i, x in enumerate(args))
+            if mode == 'call' or True:
+                text = '=%s(%s)' % (fn, ','.join(
+                    '"%s"' % x if isinstance(x, str) else str(x)
+                    for x in args))
+                if case['mode'] == 'call':
+                    return lib.call_fn(fn, *args), [fn] + list(args)
+                return lib.eval_formula(text)[0], text
         if mode == 'call':
             return lib.call_fn(fn, *args), [fn] + list(args)
         cells = {}
